@@ -3,7 +3,7 @@ import re
 from .lib.match import *
 from .lib.witness import PRELUDE, run_witness
 
-SELECT = r'^bluetoe::server::(l2cap_output|notify|indicate|find_notification_data|find_notification_data_by_index)$|^bluetoe::details::find_notification_data_in_list::|^bluetoe::details::find_notification_by_uuid::'
+SELECT = r'^bluetoe::server::(l2cap_output|notify|indicate|find_notification_data|find_notification_data_by_index)$|^bluetoe::details::find_notification_data_in_list::|^bluetoe::details::find_notification_by_uuid::|^bluetoe::details::impl::attribute_at::'
 UNITS = lambda u: u in ('w_inst_att',) or u.startswith('t_att_notification') or u.startswith('t_att_indication') or u.startswith('t_att_outgoing') or u.startswith('t_att_find_notification')
 FN = 'bluetoe::details::find_notification_data_in_list::'
 META = {
@@ -36,8 +36,37 @@ def run(chk, facts, tier):
             ok = bool(lists) and all(l in ORDER_CLASS for l in lists)
             chk.instance('producers-same-order', fn, '%s iterates %s' % (name, lists), ok,
                          '' if ok else 'lookup iterates a list in declaration order while CCCD indices are assigned in priority order: with outgoing priorities the wrong characteristic is notified and the wrong subscription consulted', key=name)
-    for c in facts.cls('bluetoe::details::find_notification_by_uuid'):
-        pass
+    # the visitors that walk that list: the CCCD index they report is the position in the walked (sorted) list
+    chk.rule('visitor-counts-sorted-position', 'find_notification_data(value): attribute_value::each reports notification_data(first_attribute_index + 1, index) with index initialised to 0 and incremented '
+             'exactly once per visited element, unconditionally (or the element\'s cccd_handle, its position in the sorted list) - never cccd_position, which is the position in declaration order; '
+             'find_notification_data_by_index: attribute_at::each counts the requested index down once per element and takes first_attribute_index at zero', floor=2)
+    for fn in [f for f in facts.fns(FN + 'attribute_value::each') if f.kind == 'pattern']:
+        ctors = [c for c in fn.body.walk() if c.k in ('CXXUnresolvedConstructExpr', 'CXXTemporaryObjectExpr', 'CXXConstructExpr') and (c.t or '').endswith('notification_data') and len(c.c) == 2]
+        ctor = [f for f in facts.fns(FN + 'attribute_value::attribute_value') if f.kind == 'pattern']
+        chk.require(len(ctors) == 1 and len(ctor) == 1, 'attribute_value::each: notification_data(index, cccd) construction or the visitor constructor not found')
+        if len(ctors) != 1 or len(ctor) != 1:
+            continue
+        a0, a1 = [strip_casts(a) for a in ctors[0].c]
+        b0 = as_binop(a0)
+        ok0 = b0 is not None and b0[0] == '+' and strip_casts(b0[1]).n == 'first_attribute_index' and cval(b0[2]) == 1
+        if a1.n == 'cccd_handle' and a1.k != 'MemberExpr':
+            ok1, how = True, 'element cccd_handle'
+        else:
+            init = [i for i in (ctor[0].hdr.get('inits') or []) if i['n'] == a1.n]
+            incs = [n for n in fn.body.walk() if n.k == 'UnaryOperator' and n.o == '++' and is_name(n.c[0], a1.n)]
+            other = [st for tgt, op, val, st in stores(fn.body) if is_name(tgt, a1.n) and st not in incs]
+            ok1 = a1.k == 'MemberExpr' or (a1.k in REF_KINDS and not a1.d.get('local'))
+            ok1 = ok1 and len(init) == 1 and init[0]['init'].get('v') == 0 and len(incs) == 1 and not fn.guards(incs[0]) and not other
+            how = 'running counter %s (0, ++ once per element)' % a1.n
+        chk.instance('visitor-counts-sorted-position', fn, 'notification_data(%s, %s): %s' % (a0.text(), a1.text(), how), bool(ok0 and ok1),
+                     '' if ok0 and ok1 else 'the CCCD index reported for a bound value is %s, not the position of the characteristic in the priority-sorted list: with outgoing priorities the wrong subscription is consulted and the wrong queue entry used' % a1.text(),
+                     node=ctors[0], key='attribute_value::each')
+    for fn in [f for f in facts.fns('bluetoe::details::impl::attribute_at::each') if f.kind == 'pattern']:
+        st = [(tgt, val, s) for tgt, op, val, s in stores(fn.body) if is_name(tgt, 'result') and op == '=']
+        decs = [n for n in fn.body.walk() if n.k == 'UnaryOperator' and n.o == '--' and is_name(n.c[0], 'index')]
+        ok = len(st) == 1 and strip_casts(st[0][1]).n == 'first_attribute_index' and len(decs) == 1 and not fn.guards(decs[0])
+        ok = ok and has_atom(guard_atoms(fn, st[0][2]), lambda n: is_name(n, 'index'), {'=='}, lambda o: cval(o) == 0)
+        chk.instance('visitor-counts-sorted-position', fn, 'attribute_at::each: result = first_attribute_index at index == 0, --index once per element', ok, '' if ok else 'lookup by CCCD index does not select the element at that position of the walked list', key='attribute_at::each')
     for fn in variants(facts, 'bluetoe::details::find_notification_by_uuid::data', chk):
         ok = mentions(fn.body, 'cccd_handle') and mentions(fn.body, 'first_attribute_index')
         chk.instance('producers-same-order', fn, 'find_notification_by_uuid::data uses char_infos::cccd_handle (list derived from the sorted list)', ok, '' if ok else 'by-UUID lookup does not use the position in the sorted list', key='by uuid')
